@@ -47,7 +47,7 @@ def run(tier, seed):
     unlisted, listed = vlib.classify(PID, bad)
     cov = {'states': e1['states'], 'transitions': e1['transitions'], 'traces_validated_against_impl': len(chunks),
            'samples': samples, 'evaluations': v['n'], 'distinct_nontrivial': nontriv,
-           'rule': 'one case = one sort call (kind, key table, input order); non-trivial = length >= 2. Every length 0..70 (quick) / 0..300 (thorough) x key alphabets {1,2,3,sqrt n,n} x {random, ascending, descending, organ pipe, nearly sorted, sawtooth}; lengths around 256/512/1024/2048/4096; seeded random arrays',
+           'rule': 'one case = one sort call (kind, key table, input order); non-trivial = length >= 2. Every length 0..70 (quick) / 0..300 (thorough) x key alphabets {1,2,3,sqrt n,n} x {random, ascending, descending, organ pipe, nearly sorted, sawtooth}; lengths around 256/512/1024/2048/4096; seeded random arrays; 60 (thorough 700) arrays of seeded random length 1200..5000',
            'elements_sorted': elems, 'max_length': max(lens) if lens else 0, 'distinct_lengths': len(lens),
            'mismatching_lines': v['nbad'], 'skipped_undefined': v['nskip'],
            'e1': 'SortE1: for every permutation-with-ties input of length <= 5 over 3 keys (incl. all-day/timed/whole-second of one day) exactly one output satisfies IsStableSortedPerm, and it is the insertion-sort result',
